@@ -132,8 +132,8 @@ def check_poles_call(ctx, tag, Ad, Bn, dt, methodSy, nxseg, out):
         e2 = np.max(np.abs(Xis[fin, k] - (-lam_rep.real / np.abs(lam_rep)))) if fin.any() else 0
         ctx.check(e1 <= 1e-12 and e2 <= 1e-12, "poles:fn_xi_not_from_lambda", lambda: f"{tag}: Fn != |lambda|/2pi or Xi != -Re/|lambda| (errors {e1:.1e}, {e2:.1e})")
         if fin.any():
-            nrm = np.max(np.abs(Phis[fin, k, :]), axis=1)
-            ctx.check(np.max(np.abs(nrm - 1)) <= 1e-12, "poles:normalisation", lambda: f"{tag}: mode shapes not normalised to a unit largest component ({nrm})")
+            nrm = gen.unit_component_error(Phis[fin, k, :])
+            ctx.check(np.max(nrm) <= 1e-12, "poles:normalisation", lambda: f"{tag}: mode shapes not normalised to a unit largest component ({nrm})")
 
 
 def run_rational(ctx, rng):
